@@ -105,10 +105,15 @@ def _gen_imu_stamps(r, enabled, trace, template, n_range):
             st = np.cumsum(np.r_[st[0], np.full(n, period)])
         if r.random() < 0.8 and n > 6:
             at = int(r.integers(2, min(8, n - 2)))
-            k = int(r.integers(3, 60))
+            # the gap stays within the 3 s of the imu_stall fault: one strapdown step over
+            # tens of seconds of manoeuvring is outside the physically sane domain in which
+            # finiteness is demanded (DESIGN.md section 4; a 26 s gap made the EKF overflow
+            # in the second thorough soak - a generator error, not a finding)
+            kmax = max(4, int(3.0 / period))
+            k = int(r.integers(3, kmax + 1))
             mul = bool(r.random() < 0.5)
             base = st.copy()
-            for k_try in range(k, k + 40):
+            for k_try in list(range(k, kmax + 1)) + list(range(3, k)):
                 # prefer a gap for which a + (b - a) really rounds off b
                 st = base.copy()
                 st[at:] = (st[at:] + k_try * period) if mul else \
